@@ -46,6 +46,22 @@ PROPS = {
                    'Sub-list stability at process level is covered under C04. Known finding: F6.',
         technique='Lean 4 proof (checked-run => junk-independent, free-monad memory model) + correspondence over dirty slabs',
     ),
+    'C10': dict(
+        areas=[('tok', 20000, 2000000)],
+        rule='seeded lines built from delimiter / blank / multi-byte pieces (leading, trailing, consecutive delimiters); '
+             'AWK, single-character, multi-character literal and regular-expression delimiters (incl. ones matching the '
+             'empty string); nth expressions with bounds -6..6, 0, +-1000000 and malformed ones; non-trivial = a line '
+             'with at least two fields; distinct = distinct case lines',
+        trusted=['Go regexp (match locations are taken from the implementation run and checked for well-formedness)',
+                 'strconv.Atoi outside small numbers'],
+        level_text='Lean 4 theorems for all lines: AWK / literal / regex (any well-formed location list) splitting '
+                   'partitions the line and each field carries the character offset of what precedes it. Model tied to '
+                   '/repo by differential runs of Tokenize / Transform / ParseRange / StripLastDelimiter; an independent '
+                   'spec (documented index expressions resolved against the field count) judges every transformed token.',
+        level_note='Partial: Transform = documented selection for ALL inputs is checked per case against the spec, not yet '
+                   'a Lean theorem. Trusted: Lean kernel, standard axioms, harness, Go regexp.',
+        technique='Lean 4 proof (partition and offset theorems by induction) + model/implementation correspondence with spec oracle',
+    ),
     'C18': dict(
         level_text='Lean 4 theorems over a hand-written model of src/history.go (file contents after any sequence of '
                    'sessions, cursor range, slot-editor refinement, edits never persisted), tied to /repo by an in-process '
